@@ -644,10 +644,23 @@ func runC16(tr *Trace, sc *Script, rec *Recorder, scratch string) *Violation {
 	}
 	cap := 500 + 50*int(chain.HeadNum())
 	rr := 0
+	// fixed point (as in C06): last processed block unchanged for 420 steps on a static chain = nothing will change
+	lastLP, unchanged := uint64(0), 0
 	for i := 0; i < cap; i++ {
 		if i%6 == 0 {
 			if ok, _ := complete(); ok {
 				break
+			}
+			if lp, err := node.syncer.GetLastProcessedBlock(bg); err == nil {
+				if lp == lastLP {
+					unchanged += 6
+				} else {
+					lastLP, unchanged = lp, 0
+				}
+				if unchanged >= 420 {
+					rec.Stats.Inc("drain_stopped_at_fixed_point")
+					break
+				}
 			}
 		}
 		ps := w.Parked()
